@@ -313,8 +313,10 @@ theorem getNextImfMask_over_getNextImf_zero_amp (E : Sig → Sift.Env) (hE : Sif
   rw [getNextImfMask_zero_amp (ComposeGni.gniX E D o) unit p x hp hu hX, ComposeGni.gniX_of_imf h]
 
 /-- … for the whole chain get_padded_extrema → interp_envelope → get_next_imf → get_next_imf_mask
-    (envelopes of the Extrema model, only the interpolant abstract). -/
-theorem getNextImfMask_pipeline_zero_amp (I : Extrema.Interp) (w : Nat) (parab : Bool)
+    (envelopes of the Extrema model, only the interpolant abstract).  Pad width ≥ 1: the range in which
+    `Sift.extEnv` represents the code (`interp_envelope` never raises there, C05.interpEnvelope_never_raises;
+    at `w = 0` the code rejects every oscillatory input, C05.interpEnvelope_pad0_raises). -/
+theorem getNextImfMask_pipeline_zero_amp (I : Extrema.Interp) (w : Nat) (_hw : 1 ≤ w) (parab : Bool)
     (D : Sig → Sig → Rat) (o : Sift.ImfOpts) (unit : Nat → Sig) (p : Nat) (x : Sig) (hp : 0 < p)
     (hu : ∀ i, i < p → (unit i).length = x.length) (c : Sig) (f : Bool)
     (h : Sift.getNextImf (Sift.extEnv I w parab) D o x = .imf c f) :
